@@ -6,7 +6,9 @@
 //! `v3.rs` (cross, slerp), `v4.rs` (homogenisation), `scale.rs` (every scale-invariant / scale-covariant function
 //! with operands scaled exactly by 2^k, tiny and huge), `slerp_edge.rs` (slerp at very small angles, next to pi,
 //! with endpoints of different and extreme lengths, through all four entry points), `ints.rs` (every function of the
-//! property that exists for integer element types, up to the limits of the type, against an i128 model).
+//! property that exists for integer element types, up to the limits of the type, against an i128 model),
+//! `etaparam.rs` (the scalar parameters over their whole domain: `refracted` for every real eta, slerp factors far
+//! outside [0, 1]), `translate.rs` (the point-taking functions on figures far from the origin relative to their size).
 //!
 //! Every oracle works on plain arrays in the *oracle domain* `S::O` (`Rat` for `Rat`, `f64` for `f64`/`f32`)
 //! and never calls the vek function it judges. Vectors are built with struct / tuple-struct literals and read
@@ -320,11 +322,13 @@ macro_rules! spatial_types {
 }
 spatial_types!(impl_sp);
 
+mod etaparam;
 mod generic;
 mod ieee;
 mod ints;
 mod scale;
 mod slerp_edge;
+mod translate;
 mod v2;
 mod v3;
 mod v4;
@@ -338,6 +342,8 @@ pub fn property() -> Property {
     scale::checks(&mut checks);
     slerp_edge::checks(&mut checks);
     ints::checks(&mut checks);
+    etaparam::checks(&mut checks);
+    translate::checks(&mut checks);
     Property {
         id: "C11",
         rule: "cases are byte tapes generated by proptest (uniform bytes, fixed seed) decoded by constructive generators into labelled classes, plus two exhaustively enumerated integer grids (cross on {-1,0,1}^6, determine_side / areas on {-2..2}^6). \
@@ -347,6 +353,9 @@ cross: when a x b != 0 and each operand has >= 2 non-zero lanes; slerp: when the
 scale-* (extreme-magnitude regime, f64 / f32): operands are base vectors of moderate length (1/2 <= |v| <= 2^8 sqrt N; random, L * rational unit vector, anisotropic lanes, exactly / nearly (anti)parallel and perpendicular pairs) multiplied exactly by 2^k with k stratified over 0, mild, middle, extreme and the limits +-48 (f32) / +-480 (f64) (+-120 / +-1000 for homogenisation), alike, one only, opposite or independent per operand; non-trivial when at least one exponent is non-zero and the unscaled non-triviality rule of the function holds; \
 slerp-edge: directions exactly parallel, log-uniform small angle down to TH_DEF/16, ordinary, next to pi, exactly antiparallel; lengths in [0.5, 2] times 2^k (none, +-4, extreme alike, extreme independent); factors 0, 1, 1/2, 2^-4..2^-20 next to 0 / 1, inside and outside [0, 1]; non-trivial when the result is finite and |from|, |to| differ from each other and from 1 by more than 1e-3 relative; \
 int-* (integer element types i8 i16 i32 i64 u8 u16 u32 and Wrapping<i8 i32 i64 u8 u32>, chosen per case by the tape): lanes / coordinates small, at the edges of the type (vkit::regimes::int_edge), around 2^(bits/2), uniform; second operand also within 3 units of the first; triangles with axis-parallel legs p, q whose product is next to an edge of the type, small triangles at the edge of the coordinate range; plus, for the 8-bit types, every pair of leg lengths in four placements (262144 index cases, exhaustive); non-trivial when at least one function was asserted (result and necessary intermediates representable, or Wrapping) and an operand has a lane beyond +-3 (grid: both legs non-zero); \
+refract-eta-* (every spatial type, Rat / f64 / f32): incidence angle ordinary, moderately / extremely (2/m, m up to 2e6) near the normal or grazing, exactly normal, exactly grazing; plane of incidence a Householder pair or two signed axes; incident against or along the normal; eta = +-1/sin(th1) (k = 0), a hair or far beyond it (k < 0), +-sin(th2)/sin(th1) with th2 Pythagorean / a hair below 90 degrees / tiny (k > 0), literally 0, +-1, +-(1 +- 2^-j), +-1e3 .. 2^20, +-1e-6 .. 2^-10, +-p/8, +-p/4; non-trivial when the incident vector has >= 2 non-zero lanes, the case is asserted and eta <= 0 or eta < 2^-12 or eta > 16 or |eta - 1| <= 2^-9; \
+slerp-factor-Vec3-*: angle right / ordinary / small (log-uniform from 8 TH_DEF) / up to pi - 0.05, lengths in [0.5, 2] * 2^-4..4, factor an integer, half-integer, +-2^j, +-1e3 / 1e6 / 1e9, log-uniform up to 1e6, a hair outside [0, 1], -1 / 2, whole turns, +-1e30 / MAX (clamped forms); non-trivial when |from| != |to| (1e-3 relative) and the factor is outside [-0.5, 1.5]; \
+translate-*: points = (integer offset + integer displacement) * 2^s, displacements of up to 1, 2, 8, 64, 512 grid steps (collinear / one step off / general triangles; differences on one, two (Pythagorean) or all lanes), offsets 0, 2^j, 2^j +- 1, largest representable, full random mantissa of up to 24 (f32) / 49 (f64, Rat) bits, alike on all lanes / one lane / independent, either sign; non-trivial when an offset is non-zero and the points are pairwise distinct; \
 distinct = distinct consumed tape prefix per check",
         assumptions: &[
             "rustc and the proptest runner/shrinker are trusted",
@@ -361,6 +370,10 @@ distinct = distinct consumed tape prefix per check",
             "extreme magnitudes (scale-*): asserted only where every operand alone is still normalisable and every degree-2 quantity of the property is representable: |k| <= 48 (f32) / 480 (f64) on base lengths in [1/2, 2^8 sqrt N], so |v|^2, a_i b_i and (a_i - b_i)^2 stay normal (f32 2^-98..2^120, f64 2^-962..2^990); cross uses half that range per operand (its derived clauses are of degree 3 and 4); homogenisation only forms quotients and is exercised over 2^+-120 / 2^+-1000 with the quotient exponent bounded by 100 / 900. Overflow or complete underflow of |v|^2 itself (|v| > ~2^63 / 2^511 or < ~2^-63 / 2^-511) is NOT asserted: the documented formulas (v / sqrt(v.v)) lose all meaning there in any implementation that squares. Oracles are evaluated at the unscaled magnitude and multiplied by the exact power of two; every tolerance is k * eps * (scaled magnitude) plus 8 subnormal ulps (gradual underflow of one product of two tiny lanes); the scaling itself is exact: every scaled lane is zero or a normal number (debug-asserted in the harness)",
             "extreme magnitudes, what is deliberately left out: reflected with a scaled *normal* (the property states it for the surface normal; only the incident vector is scaled), refracted (stated for unit vectors only; instead eta is drawn from 2^-12..2^4 and the incidence angle from near-normal / grazing Pythagorean triples), Rat (2^k scaling cannot leave its range; the rational code paths are already exact at unit scale), try_normalized between 0 and 1e-3 (Some(unit) or None both accepted, as at unit scale), `false` answers of the approximate predicates at tiny scale (absolute epsilon leg of RelativeEq)",
             "integer element types (int-*): oracle = the defining formula on i128. Plain integers (the harness is built with overflow checks, so an overflow inside vek is a panic): the exact result is demanded, and a panic reported, whenever the RESULT and the mathematically necessary intermediates are representable in the element type; otherwise vek is not called and the case only labelled. Necessary intermediates: dot / magnitude_squared: every product and the sum in ANY order (sum of the positive and sum of the negative products separately, so no association order is imposed); distance_squared: lane differences, squares, sum; reflected: v.n, 2(v.n), n_i * 2(v.n), the lane results; face_forward: reference.incident, and -v_i only if the vector is flipped; determine_side: the four differences b-a, c-a, the two products, their difference; signed_triangle_area: plus the half; triangle_area: plus |half| (NOT |cross product|: a cross product of exactly T::MIN has a representable half and area); cross: six products, three differences; homogenized: the four quotients (w = 0 never called, MIN / -1 not asserted). A non-divisible half / quotient may be truncated or floored. Wrapping<_>: polynomial functions must equal the model mod 2^n always (ring identity, independent of evaluation order); halves, absolute values and signs are asserted when the true value is representable, otherwise only triangle_area == |signed_triangle_area| >= 0 and face_forward in {v, -v}. Not covered: u64, i128 / u128, isize / usize (products exceed the i128 model / platform dependent); Wrapping of unsigned for triangle_area (absolute value meaningless)",
+            "refracted, range of eta (refract-eta-*): vek's doc comment ('The refraction vector for this incident vector, a surface normal and a ratio of indices of refraction (`eta`)') names neither a formula nor a domain for eta; the property demands the Snell formula and the zero vector on total internal reflection. Asserted for every real eta: k = 1 - eta^2 (1 - (n.i)^2) < 0 gives the zero vector, otherwise eta*i - (eta*(n.i) + sqrt k)*n (the GLSL refract formula: tangential part eta * tangential(i), normal part -sqrt(k) n, also for eta <= 0, where it is the algebraic continuation, not physics). i and n are unit vectors (exactly in Rat, up to rounding in floats; the oracle evaluates the formula on the lanes actually passed). Floats: the rounding of k is bounded operation by operation: with m non-zero products n_j i_j, d(n.i) <= (2m - 1) eps sum|n_j i_j| (0 when the only non-zero product has a factor +-1, e.g. an axis-aligned normal), d(q) <= 2 |n.i| d(n.i) + eps (n.i)^2 (0 for |n.i| = 1) + eps |q| for q = 1 - (n.i)^2, dk = 2 (eta^2 (d(q) + 3 eps |q|) + eps |k|) (twice: vek and the f64 oracle); the zero vector is demanded for k < -2 dk, the formula for k > 8 dk within 2 eps (2m + 8)(|eta| + sqrt k + 1) + 2 dk / sqrt k, nothing in between. Since dk grows like eta^2 eps, f32 resolves the sign of k for |eta| >= 1e3 only at (near-)normal incidence with an exact n.i; there it is asserted (label 'Snell formula (k > 0) with |eta| >= 1e3'), everything else at that magnitude is decided exactly in Rat. Rat: literal eta with an irrational sqrt(k) are not called",
+            "slerp factors far outside [0, 1] (slerp-factor-*): the doc says 'without implicitly constraining factor to be between 0 and 1 ... their length is also linearly interpolated' / 'implicitly constraining factor to be between 0 and 1'. Clamped forms: the end point on the side of the factor within 8 eps (as at factor 0 / 1), for every finite factor up to MAX (infinite and NaN factors are not asserted). Unclamped forms: |result| = |lerp(|from|, |to|, t)| (the interpolated length may be negative; its absolute value is compared) within (10 w1 w2 + 5 (w1 + w2) + 2.5 (|1-t| + |t|) alpha / sin(alpha) + 8) eps |l| + 4 (|1-t| + |t|) eps max(|from|, |to|) with w1 = min(1, |1-t| alpha) / sin(alpha), w2 = min(1, |t| alpha) / sin(alpha) bounding the weights; result in the plane of the end points; direction at t * angle within 32 (1 + |t|) / sin^2(alpha) eps (the computed angle is only known to 8 eps / sin(alpha), and t multiplies that); each clause only while its relative tolerance is <= 2^-6. Angles stay 8 TH_DEF away from 0 and 0.05 from pi, so a non-finite result is a violation",
+            "translation (translate-*): asserted only for the functions whose documented / implemented definition works on differences of points (distance, distance_squared: '(self - v).magnitude()'; determine_side: '(bx - ax) * (cy - ay) - (by - ay) * (cx - ax)', the areas derived from it), and only on inputs where every coordinate and every difference of coordinates is exactly representable (integers below 2^24 / 2^49 times a power of two), so that the demanded tolerance relative to the figure (4 eps * sum of |edge component products| resp. (N + 2) / (N + 4) eps * the distance) is what the unchanged formula delivers. The oracle is integer arithmetic on the displacements. Nothing is asserted about translated figures whose coordinates are not exactly representable sums",
+            "scalar parameters audited and left as they are: is_magnitude_close_to(x) with x < 0 is not asserted (the doc says 'Is the magnitude of the vector close to x?', the code compares squares, so it answers true for x = -|v|: neither is promised); large and tiny x >= 0 are covered by scale-*; face_forward, reflected, angle_between(_degrees) take no scalar parameter",
             "slerp-edge conditioning (documented GLM formula): the computed cosine is within 8 eps of the true one, so (i) end points are hit within 8 eps |from| (factor 0) / 8 eps max(|from|, |to|) (factor 1: one rounding of lerp's `to - from`) at EVERY angle with sin(alpha') != 0, (ii) |result| = lerp(|from|, |to|, t) within (8 |t1 t2| + 4 (|t1| + |t2|) + 2 (|1-t| + |t|) alpha / sin(alpha) + 8) eps |L| + 4 (|1-t| + |t|) eps max(|from|, |to|), where t1, t2 are the exact weights: bounded for small angles, growing like 1/sin^2 only next to pi, (iii) the full reference within 32 eps for angles <= 0.06 and 32 / sin^2 otherwise (asserted while that is <= 2^-6 / eps). The formula is 0/0 exactly when the computed cosine rounds to 1, possible only for theta^2 / 2 <= 8.25 eps (theta <= 1.40e-3 in f32, 6.05e-8 in f64): inside that zone and its mirror image at pi a non-finite result is accepted and nothing is asserted for the case, a finite result must satisfy every clause; outside it a non-finite result is reported. Within sqrt(512 eps) of pi only the end points are asserted (intermediate directions are genuinely ill-conditioned there)",
         ],
         checks,
